@@ -250,3 +250,33 @@ def check(ctx: Ctx) -> None:
             if not ok:
                 ob.violation(fi, c, "a raising user callback aborts the receiver epilogue before _terminate_execution(): the worker is never told to stop")
         ob.require(len(ob.sites) >= 2, "callback invocation sites (floor 2)")
+
+    # serve() is what keeps the worker process alive: once the receiver thread has ended (self.join() returned) nothing may wait without
+    # a bound -- for green execution models the escalation ladder can be cut short by its own SIGINT, and returning from serve() is then
+    # the only thing that ends the process
+    with ctx.obligation("C11.l", "serve-returns-after-receiver-ended") as ob:
+        fsv = repo.func(f"{GB}.WorkerGateway.serve")
+        cfgs = build_cfg(repo, fsv, Oracle(repo, fsv))
+        joins = cfg_nodes_with_call(cfgs, lambda c: callee_attr(c) == "join" and unparse(c.func) == "self.join")
+        ob.require(len(joins) >= 1, "serve(): self.join() not found")
+        BLOCKING = {"wait", "join", "waitclose", "receive", "get", "acquire", "sleep", "waitall", "waitfinish", "integrate_as_primary_thread", "terminate"}
+        seen_, work, n_after = set(), [m for j in joins for (m, _l) in cfgs.succ[j.id]], 0
+        while work:
+            nid = work.pop()
+            if nid in seen_:
+                continue
+            seen_.add(nid)
+            node = cfgs.nodes[nid]
+            n_after += 1
+            for c in calls_in_node(node):
+                bounded = any(k.arg == "timeout" and not (isinstance(k.value, ast.Constant) and k.value.value is None) for k in c.keywords) or \
+                    (c.args and callee_attr(c) in ("wait", "join", "waitall", "get", "waitfinish", "acquire", "terminate") and not (isinstance(c.args[0], ast.Constant) and c.args[0].value is None))
+                if callee_attr(c) in BLOCKING and not bounded:
+                    ob.violation(fsv, c, f"serve() waits without a bound in `{norm(c)[:50]}` after the receiver thread has ended: a worker whose escalation ladder was cut short "
+                                         "(green execution models) outlives its initiator", construct="unbounded wait after join")
+            work.extend(m for (m, _l) in cfgs.succ[nid])
+        ob.site(fsv, joins[0].ast, "nothing waits without a bound after self.join() in serve()", nodes_after_join=n_after)
+
+    # the receiver thread is the only one that notices EOF and runs the ladder: it must never block delivering data (unbounded queue)
+    from ..report import borrow
+    borrow(ctx, "C10", {"C10.j": "C11.m"})
